@@ -45,10 +45,11 @@ def install_proxy(ctx):
                 mol2, = bus.seen(('mol2',), args, kwargs)
                 value = self._gmv_real(*args, **kwargs)
                 try:
-                    every = _state.get('sample_every', 1)
-                    _state['n'] = _state.get('n', 0) + 1
-                    if _state['n'] % every == 0:
-                        judge(ctx, self._gmv_fixed, np.asarray(mol2, float), self._gmv_restr, value)
+                    with bus.neutral():
+                        every = _state.get('sample_every', 1)
+                        _state['n'] = _state.get('n', 0) + 1
+                        if _state['n'] % every == 0:
+                            judge(ctx, self._gmv_fixed, np.asarray(mol2, float), self._gmv_restr, value)
                 except Exception as exc:  # noqa
                     ctx.violation('monitor-error:chi2', repr(exc))
                 return value
